@@ -169,7 +169,7 @@ def _index_names(fn, call) -> set[str]:
                 names.add(t.id)
     # loop variables iterating groupby(idx, …) / unique(idx): first target element is the index value
     for x in walk_no_nested(fn):
-        if isinstance(x, ast.For) and isinstance(x.iter, ast.Call) and x.iter.args:
+        if isinstance(x, (ast.For, ast.comprehension)) and isinstance(x.iter, ast.Call) and x.iter.args:
             a0 = x.iter.args[0]
             if isinstance(a0, ast.Name) and a0.id in names:
                 t = x.target
@@ -178,6 +178,27 @@ def _index_names(fn, call) -> set[str]:
                 elif isinstance(t, ast.Name):
                     names.add(t.id)
     return names
+
+
+def _expand_locals(fn, expr: ast.AST, keep: set, depth: int = 3) -> ast.AST:
+    """copy of expr with every local that has exactly one definition replaced by that definition
+    (so that `num_bins = len(binning)` … `i <= num_bins` reads `i <= len(binning)`)"""
+    import copy
+
+    from ..dataflow import single_def_value
+
+    class T(ast.NodeTransformer):
+        def __init__(self, d):
+            self.d = d
+
+        def visit_Name(self, n):
+            if isinstance(n.ctx, ast.Load) and n.id not in keep and self.d > 0:
+                v = single_def_value(fn, n.id)
+                if v is not None and not isinstance(v, (ast.Lambda, ast.Dict, ast.List, ast.ListComp, ast.DictComp, ast.GeneratorExp)):
+                    return T(self.d - 1).visit(copy.deepcopy(v))
+            return n
+
+    return T(depth).visit(copy.deepcopy(expr))
 
 
 def _check_filter(prog, res, fi: FuncInfo, call: ast.Call) -> None:
@@ -210,11 +231,12 @@ def _check_filter(prog, res, fi: FuncInfo, call: ast.Call) -> None:
     for t in tops:
         vals = {}
         try:
+            tx = _expand_locals(fn, t, idx)
             for i in (0, 1, N, N + 1):
                 env = {nm: i for nm in idx}
                 for lt in len_texts | num_texts:
                     env[lt] = N
-                vals[i] = bool(ceval(t, env))
+                vals[i] = bool(ceval(tx, env))
         except Unknown:
             continue
         if vals == {0: False, 1: True, N: True, N + 1: False}:
@@ -265,24 +287,23 @@ def _check_filter(prog, res, fi: FuncInfo, call: ast.Call) -> None:
                         keys.append(y.args[0])
                     elif isinstance(y, ast.Subscript) and not isinstance(y.slice, ast.Slice):
                         keys.append(y.slice)
+                lenv = {lt: N for lt in len_texts | num_texts}
+                try:
+                    rng = list(ceval(_expand_locals(fn, g.iter, {j}), lenv))
+                except (Unknown, TypeError):
+                    continue
                 for k in keys:
+                    if not any(isinstance(y, ast.Name) and y.id == j for y in ast.walk(k)):
+                        continue
                     try:
-                        r0, r3 = ceval(k, {j: 0}), ceval(k, {j: 3})
+                        got = [ceval(_expand_locals(fn, k, {j}), {j: v, **lenv}) for v in rng]
                     except Unknown:
                         continue
-                    # range(len(binning)) starts at 0: bin j holds digitize index j+1
-                    start = 0
-                    if len(g.iter.args) >= 2:
-                        try:
-                            start = ceval(g.iter.args[0], {})
-                        except Unknown:
-                            continue
-                    if start != 0:
-                        continue
-                    if (r0, r3) == (1, 4):
-                        res.ok("C10.R1", res.site(fi, unparse(k)), "bin position j looks up bin index j+1")
+                    # position p of the result holds the object of digitize index p+1, for all N bins
+                    if got == list(range(1, N + 1)):
+                        res.ok("C10.R1", res.site(fi, unparse(k)), f"bin positions 0..N-1 look up the bin indices 1..N (evaluated for N={N})")
                     else:
-                        res.violation("C10.R1", fi, k, f"bin position j is filled from index {unparse(k)} (= {r0} for j=0); digitize numbers the first bin 1: every bin is shifted", key_extra="bin-index-shift")
+                        res.violation("C10.R1", fi, k, f"bin positions 0..N-1 are filled from the indices {got} (N={N}) through {unparse(k)}; digitize numbers the bins 1..N: bins are shifted or dropped", key_extra="bin-index-shift")
 
 
 def _entry_points(prog) -> list[FuncInfo]:
